@@ -99,13 +99,20 @@ func (lm *levelManager) resolvePlanLocked(cd *compactDef) bool {
 	return true
 }
 
+// lockLevels read-locks the levels of the compaction. Ingest-buffer and max-level compactions
+// have thisLevel == nextLevel: the lock is taken once then, because a second RLock by the same
+// goroutine deadlocks as soon as a writer queues up between the two.
 func (cd *compactDef) lockLevels() {
 	cd.thisLevel.RLock()
-	cd.nextLevel.RLock()
+	if cd.nextLevel != cd.thisLevel {
+		cd.nextLevel.RLock()
+	}
 }
 
 func (cd *compactDef) unlockLevels() {
-	cd.nextLevel.RUnlock()
+	if cd.nextLevel != cd.thisLevel {
+		cd.nextLevel.RUnlock()
+	}
 	cd.thisLevel.RUnlock()
 }
 
@@ -361,8 +368,9 @@ func (lm *levelManager) fillTables(cd *compactDef) bool {
 	cd.lockLevels()
 	defer cd.unlockLevels()
 
-	if cd.thisLevel.numTables() == 0 {
-		if cd.thisLevel.isLastLevel() && cd.thisLevel.numIngestTables() > 0 {
+	// The level locks are held: read the level directly instead of through the locking accessors.
+	if len(cd.thisLevel.tables) == 0 {
+		if cd.thisLevel.isLastLevel() && cd.thisLevel.ingest.tableCount() > 0 {
 			meta := cd.thisLevel.ingest.allMeta()
 			if len(meta) == 0 {
 				return false
@@ -380,7 +388,7 @@ func (lm *levelManager) fillTables(cd *compactDef) bool {
 		}
 		return false
 	}
-	tables := make([]*table, cd.thisLevel.numTables())
+	tables := make([]*table, len(cd.thisLevel.tables))
 	copy(tables, cd.thisLevel.tables)
 	// We're doing a maxLevel to maxLevel compaction. Pick tables based on the stale data size.
 	if cd.thisLevel.isLastLevel() {
@@ -401,7 +409,7 @@ func (lm *levelManager) fillTablesIngestShard(cd *compactDef, shardIdx int) bool
 	cd.lockLevels()
 	defer cd.unlockLevels()
 
-	totalIngest := cd.thisLevel.numIngestTables()
+	totalIngest := cd.thisLevel.ingest.tableCount() // level locks are held
 	if totalIngest == 0 {
 		return false
 	}
